@@ -262,7 +262,8 @@ class TemplateManipulator:
 		"""
 		updates: UpdateMap = {}
 		normalize_schema_props = cls._normalize_props(schema_props)
-		normalize_actual_props = cls._normalize_props(actual_props)
+		# XXX Unionを階層から除外するのはスキーマのみ。実行時型のUnionは1つの型であり、除外するとテンプレートがUnionの先頭要素に解決されてしまう
+		normalize_actual_props = cls._normalize_props(actual_props, skip_union=False)
 		for target_path, target_template in target_templates.items():
 			for schema_path, schema_template in schema_templates.items():
 				if target_template != schema_template:
@@ -281,7 +282,7 @@ class TemplateManipulator:
 		return updates
 
 	@classmethod
-	def _normalize_props(cls, props: dict[str, IReflection]) -> dict[str, str]:
+	def _normalize_props(cls, props: dict[str, IReflection], skip_union: bool = True) -> dict[str, str]:
 		"""シンボルのマップ表を正規化(=単純化)
 
 		Args:
@@ -310,7 +311,7 @@ class TemplateManipulator:
 			for i in range(2, count):
 				begin = DSN.left(key, i)
 				# Unionは条件を並列に並べることが目的。seq.expandによって既に展開されており、階層としては不要なので除外
-				if begin in props and not props[begin].impl(refs.Object).type_is(Union):
+				if begin in props and not (skip_union and props[begin].impl(refs.Object).type_is(Union)):
 					begin_index = int(DSN.right(begin, 1))
 					elem_indexs[key].append(begin_index)
 
